@@ -304,9 +304,9 @@ theorem C02_built_default_in_space (thr : ThrCfg) (r : RawObs) (o : Obs) (hw : r
 
 /-- **C02 from the scenario's words**: for the object built from ANY accepted observation_space section, every observation reported
 along any sequence of well-formed states is a member of the one space declared by that object -/
-theorem C02_built_run_in_space (capture : Bool) (thr : ThrCfg) (r : RawObs) (o : Obs) (hw : r.Wf) (hb : r.build thr = some o)
-    (sts : List SimState) (h : ∀ st ∈ sts, WfState capture st ∧ o.Compat st) : ∀ v ∈ o.run capture sts, contains o.space v = true :=
-  C02_run_in_space capture sts o (C02_raw_build_ok thr r o hw hb) h
+theorem C02_built_run_in_space (thr : ThrCfg) (r : RawObs) (o : Obs) (hw : r.Wf) (hb : r.build thr = some o)
+    (sts : List SimState) (h : ∀ st ∈ sts, WfState st ∧ o.Compat st) : ∀ v ∈ o.run sts, contains o.space v = true :=
+  C02_run_in_space sts o (C02_raw_build_ok thr r o hw hb) h
 
 /-! ### gymnasium `flatten`: length and range are functions of the space only -/
 
@@ -370,30 +370,30 @@ example : (Space.dict [(.s "a", .discrete 3), (.s "b", .dict [(.n 1, .discrete 2
 /-! ### the environment: every observation handed out is in the space declared for ITS episode -/
 
 /-- within an episode the declared space never changes (observing only moves the objects' memory) -/
-theorem C02_env_space_within_episode (capture : Bool) (e : EpisodeCfg) (o : Obs) (st : SimState) :
-    e.space (o.next capture st) = e.space o := by
+theorem C02_env_space_within_episode (e : EpisodeCfg) (o : Obs) (st : SimState) :
+    e.space (o.next st) = e.space o := by
   simp [EpisodeCfg.space, C02_space_const]
 
-theorem C02_space_flattenable_const (capture : Bool) (o : Obs) (st : SimState) : (o.next capture st).space.flattenable = o.space.flattenable := by
+theorem C02_space_flattenable_const (o : Obs) (st : SimState) : (o.next st).space.flattenable = o.space.flattenable := by
   rw [C02_space_const]
 
-theorem env_getObs_in_space (capture : Bool) (e : EpisodeCfg) (o : Obs) (st : SimState) (hfl : e.flat = true → o.space.flattenable = true)
-    (h : contains o.space (o.val capture st) = true) : (e.space o).has (e.getObs (o.next capture st) (o.val capture st)) = true := by
+theorem env_getObs_in_space (e : EpisodeCfg) (o : Obs) (st : SimState) (hfl : e.flat = true → o.space.flattenable = true)
+    (h : contains o.space (o.val st) = true) : (e.space o).has (e.getObs (o.next st) (o.val st)) = true := by
   unfold EpisodeCfg.space EpisodeCfg.getObs
   cases hf : e.flat with
   | false => simpa [ApiSpace.has] using h
   | true =>
     rw [C02_space_const]
-    obtain ⟨x, hx, hl, hb⟩ := C02_flatten_length_partial o.space (o.val capture st) (hfl hf) h
+    obtain ⟨x, hx, hl, hb⟩ := C02_flatten_length_partial o.space (o.val st) (hfl hf) h
     simp only [hx, hfl hf, if_true, ApiSpace.has, Bool.and_eq_true, beq_iff_eq, List.all_eq_true, decide_eq_true_eq]
     exact ⟨hl, hb⟩
 
 /-- **nested or flattened, every observation of an episode is a member of the space `observation_space` declares during that
 episode** (read after its reset or at any later moment of it).  Partial in two named hypotheses: `Compat` (F-6: more rules than ACL
 slots) and, for a flattened agent, `flattenable` (F-C02-2: a space gymnasium cannot flatten). -/
-theorem C02_env_obs_in_declared_space (capture : Bool) (e : EpisodeCfg) : ∀ (sts : List SimState) (o : Obs), o.Ok →
+theorem C02_env_obs_in_declared_space (e : EpisodeCfg) : ∀ (sts : List SimState) (o : Obs), o.Ok →
     (e.flat = true → o.space.flattenable = true) →
-    (∀ st ∈ sts, WfState capture st ∧ o.Compat st) → ∀ a ∈ e.run capture o sts, (e.space o).has a = true := by
+    (∀ st ∈ sts, WfState st ∧ o.Compat st) → ∀ a ∈ e.run o sts, (e.space o).has a = true := by
   intro sts
   induction sts with
   | nil => intro o _ _ _ a ha; simp [EpisodeCfg.run] at ha
@@ -403,16 +403,16 @@ theorem C02_env_obs_in_declared_space (capture : Bool) (e : EpisodeCfg) : ∀ (s
     simp only [EpisodeCfg.run, List.mem_cons] at ha
     rcases ha with ha | ha
     · subst ha
-      exact env_getObs_in_space capture e o st hfl (C02_obs_in_space capture st hst.1 o ok hst.2)
-    · have := ih (o.next capture st) (C02_ok_next capture st hst.1 o ok) (by rw [C02_space_flattenable_const]; exact hfl)
-        (fun st' hst' => ⟨(h st' (by simp [hst'])).1, compat_next capture st st' o (h st' (by simp [hst'])).2⟩) a ha
+      exact env_getObs_in_space e o st hfl (C02_obs_in_space st hst.1 o ok hst.2)
+    · have := ih (o.next st) (C02_ok_next st hst.1 o ok) (by rw [C02_space_flattenable_const]; exact hfl)
+        (fun st' hst' => ⟨(h st' (by simp [hst'])).1, compat_next st st' o (h st' (by simp [hst'])).2⟩) a ha
       rwa [C02_env_space_within_episode] at this
 
 /-- the same, starting from the episode's scenario section -/
-theorem C02_env_episode_in_declared_space (capture : Bool) (e : EpisodeCfg) (o : Obs) (hw : e.raw.Wf) (hb : e.raw.build e.thr = some o)
+theorem C02_env_episode_in_declared_space (e : EpisodeCfg) (o : Obs) (hw : e.raw.Wf) (hb : e.raw.build e.thr = some o)
     (hfl : e.flat = true → o.space.flattenable = true)
-    (sts : List SimState) (h : ∀ st ∈ sts, WfState capture st ∧ o.Compat st) : ∀ a ∈ e.run capture o sts, (e.space o).has a = true :=
-  C02_env_obs_in_declared_space capture e sts o (C02_raw_build_ok e.thr e.raw o hw hb) hfl h
+    (sts : List SimState) (h : ∀ st ∈ sts, WfState st ∧ o.Compat st) : ∀ a ∈ e.run o sts, (e.space o).has a = true :=
+  C02_env_obs_in_declared_space e sts o (C02_raw_build_ok e.thr e.raw o hw hb) hfl h
 
 /-- **constant scenario ⇒ one space in every episode**: the declared space is determined by the episode's configuration, so a
 schedule that hands out the same configuration every time declares the same space every time (and a schedule that does not may
@@ -441,8 +441,8 @@ def exNodesCfg : NodesCfg :=
     numRules := some (some 4) }
 
 example : (RawObs.nodes exNodesCfg).Wf ∧ (∃ o, (RawObs.nodes exNodesCfg).build none = some o ∧
-    contains o.space o.default = true ∧ contains o.space (o.val true exState) = true ∧
-    o.space.flattenable = true ∧ (∃ x, flatten o.space (o.val true exState) = some x ∧ x.length = flatDim o.space)) := by
+    contains o.space o.default = true ∧ contains o.space (o.val exState) = true ∧
+    o.space.flattenable = true ∧ (∃ x, flatten o.space (o.val exState) = some x ∧ x.length = flatDim o.space)) := by
   refine ⟨⟨by unfold TrafficOk; decide, ?_⟩, ?_⟩
   · intro h hh
     simp only [exNodesCfg, List.mem_singleton] at hh
